@@ -1,5 +1,6 @@
 ------------------------------ MODULE MC_PrSctp ------------------------------
 EXTENDS PrSctp
+CONSTANT Small
 \* stream 1 (limited): one message, then the reliable stream's two-fragment message, then one more on each
-MCMsgs == <<<<1, 1>>, <<2, 2>>, <<1, 1>>, <<2, 1>>>>
+MCMsgs == IF Small THEN <<<<1, 1>>, <<2, 2>>, <<1, 1>>>> ELSE <<<<1, 1>>, <<2, 2>>, <<1, 1>>, <<2, 1>>>>
 =============================================================================
